@@ -149,6 +149,16 @@ _WHERE = {
             "into release segments, CPython.",
             "TLA+ spec (Deps/DepOps) model-checked with TLC; TLC-generated sequences and definitions replayed into the "
             "code; recorded results validated by TLC trace spec (DepTrace)"),
+    "C11": ("document", "C11",
+            "TLC enumerates document contents up to the bound (lone html / body, head in any child position, dependencies "
+            "and head_content at every placement, html attribute arguments) and checks the consequences C11 states on the "
+            "required document tree (one head starting with meta charset, one listing iff dependencies, every dependency's "
+            "markup once and only in head); each content is rendered by the real HTMLDocument and TLC compares the "
+            "tokenised output and the returned dependency list with the required tree built from the real inputs.",
+            "Trusted: TLC/SANY, DocTree/Resolved in spec/DocumentOps.tla, the harness HTML tokenizer and its reading of "
+            "the real dependency objects, CPython.",
+            "TLA+ spec (Document/DocumentOps) model-checked with TLC; TLC-generated contents replayed into the code; "
+            "tokenised real documents validated by TLC trace spec (DocTrace)"),
 }
 
 NOT_YET = {}
